@@ -2,20 +2,28 @@
 Model of request-body validation (property C06).
 
 Code modelled, branch by branch:
-  * openapi3/content.go            `Content.Get`                         → `contentGet`
+  * openapi3/content.go            `Content.Get`                         → `contentGet` (= `runSteps contentGetProgram`,
+                                                                            the step program regenerated from the source)
   * openapi3filter/internal.go     `parseMediaType`                      → `base`
   * openapi3filter/req_resp_decoder.go
         `init` (decoder registry)                                        → `registry` (tied to the source by the
                                                                             generated table `Gen.bodyDecoders`)
-        `decodeBody`, `JSONBodyDecoder`, `PlainBodyDecoder`, `FileBodyDecoder` → `decodeBody`, `decodeSimple`
+        `decodeBody`, `JSONBodyDecoder`, `PlainBodyDecoder`, `FileBodyDecoder`, `YamlBodyDecoder`, `CsvBodyDecoder`
+                                                                         → `decodeBody`, `decodeSimple`
         `UrlencodedBodyDecoder`, `decodeSchemaConstructs`, `decodeProperty`, `decodeValue`,
         `urlValuesDecoder.DecodePrimitive/DecodeArray/parseArray`, `parsePrimitive(Case)` → `decodeForm` …
         `MultipartBodyDecoder`                                           → `decodeMultipart`
-  * openapi3filter/validate_request.go `ValidateRequestBody`             → `validateRequestBody`
+  * openapi3filter/validate_request.go `ValidateRequestBody`             → `validateRequestBody` (defaults skipped) and
+        `validateRequestBodyD` (with the option SkipSettingDefaults: `DefaultsSet`, then `encodeBody` when a default
+        was set; openapi3filter/req_resp_encoder.go `bodyEncoders` → `hasEncoder`, tied to the table `Gen.bodyEncoders`)
   * openapi3/schema.go `visitJSON` / `visitJSONObject` … with `VisitAsRequest()` on the schema fragment `RS`
         (type, nullable, readOnly, writeOnly, minLength, maximum, properties, required,
-         additionalProperties: true|false, items, not, oneOf, anyOf, allOf) → `visit` = `visitV` (own keywords,
-         recursion over the value) over `comp` (visitNotOperation / visitXOFOperations, recursion over the schema)
+         additionalProperties: true|false, items, not, oneOf, anyOf, allOf, minProperties, maxProperties, default)
+         → `visit` = `visitV` (own keywords, recursion over the value) over `comp` (visitNotOperation /
+         visitXOFOperations, recursion over the schema): the validator WITHOUT `DefaultsSet`;
+         → `visD` (recursion over the schema, the value is threaded): the validator WITH `DefaultsSet` — injection
+         loop of `visitJSONObject` (`inject`, the `reqRO` guard `dfltFor`), deep copy per oneOf/anyOf member and
+         re-run of the matched one, allOf members in sequence; `firesD`: whether `defaultsSet` is called
   * property declarations inside allOf/anyOf/oneOf members of a form schema (`decodeSchemaConstructs`)
         → `flatDecls`, `mergeKV`; composition keywords inside a property schema (`decodeValue`) → `decodePropC`
   * `MultipartBodyDecoder` against schemas with `allOf`                    → `partDecl`, `assemblyProps`
@@ -23,14 +31,16 @@ Code modelled, branch by branch:
 Specification side (written from the property text, not from the control flow): `candidates`/`firstSome`
 (precedence list), `SatReq` (+ executable `satReqB`), `specFormProp(s)`/`encodeForm` (what form fields encode,
 what a client writes), `specDecode`, `Accept` (+ executable `acceptB`).
-Exclusion class (known finding): `formUnparsable` (FormFieldUnparsable, #20), lifted to whole cases by
-`exclFormUnparsable`. (The former classes ReadOnlyNull and FormNullForMissing were repaired in the repository:
+Exclusion classes (known findings): `formUnparsable` (FormFieldUnparsable, #20), lifted to whole cases by
+`exclFormUnparsable`; `exclNoBodyEncoder` (NoBodyEncoder, F-C06-4). Where a default decides the verdict
+(`defaultsNeutral` false) the request-side reading of the property text does not apply (`caseNeutral`). (The former classes ReadOnlyNull and FormNullForMissing were repaired in the repository:
 e80060c, 2621864; the model follows the repaired code.)
 
 What is abstracted (inputs of the model, produced by the trusted parsers in the correspondence run):
   `BodyIn.json`  – what `encoding/json` makes of the whole body text (none = not exactly one JSON value),
   `BodyIn.form`  – what `net/url.ParseQuery` makes of it,
   `BodyIn.parts` – what `mime`/`mime/multipart` make of it under the request's Content-Type header,
+  `BodyIn.yaml`, `BodyIn.csv` – what yaml3 / `encoding/csv` make of it (likewise per multipart part),
   number texts are modelled on the decimal subset of `strconv` ([+-]digits, [+-]digits.5) – generators stay inside.
 -/
 namespace KinModel.Body
@@ -72,12 +82,56 @@ def contentGet {α : Type} (c : List (Str × α)) (mime : Str) : Option α :=
         | some v => some v
         | none => lookup star c
 
+/-! #### the matching code as a step program (tied to the source by the regenerated table `Gen.MediaTypeMatch`) -/
+
+/-- the statement shapes of `Content.Get` / `parseMediaType` (see go/cmd/extract/mediatypematch.go) -/
+inductive Step
+  | emptyRet (key : Str)                    -- if mime == "" { return content[key] }
+  | tryMime                                 -- if v := content[mime]; v != nil { return v }
+  | cutFirst (c : Char)                     -- i := IndexByte(mime, c); if i < 0 { i = len(mime) }; mime = mime[:i]
+  | cutFirstOrNil (c : Char) (suffix : Str) -- i = IndexByte(mime, c); if i < 0 { return nil }; mime = mime[:i] + suffix
+  | retKey (key : Str)                      -- return content[key]
+  | prefixBefore (c : Char)                 -- (parseMediaType) the text before the first c, all of it if there is none
+  deriving DecidableEq, Repr
+
+/-- `m[:strings.IndexByte(m, c)]`, all of `m` when `c` does not occur -/
+def cutAt (c : Char) (m : Str) : Str := m.takeWhile (· ≠ c)
+
+/-- the interpreter of the step program of `Content.Get` -/
+def runSteps {α : Type} (cnt : List (Str × α)) : List Step → Str → Option α
+  | [], _ => none
+  | .emptyRet k :: r, m => if m = [] then lookup k cnt else runSteps cnt r m
+  | .tryMime :: r, m => (match lookup m cnt with | some v => some v | none => runSteps cnt r m)
+  | .cutFirst c :: r, m => runSteps cnt r (cutAt c m)
+  | .cutFirstOrNil c sfx :: r, m => if m.contains c then runSteps cnt r (cutAt c m ++ sfx) else none
+  | .retKey k :: _, _ => lookup k cnt
+  | .prefixBefore _ :: r, m => runSteps cnt r m
+
+/-- the program `contentGet` was written from; `Props/C06.lean` proves it equal to the regenerated table and
+`runSteps … contentGetProgram = contentGet` for every content map and header -/
+def contentGetProgram : List Step :=
+  [.emptyRet star, .tryMime, .cutFirst ';', .tryMime, .cutFirstOrNil '/' slashStar, .tryMime, .retKey star]
+
+/-- `parseMediaType` as a program: `base` is its meaning -/
+def parseMediaTypeProgram : List Step := [.prefixBefore ';']
+
 /-- the documented precedence as a candidate list (spec) -/
 def candidates (mime : Str) : List Str :=
   if mime = [] then [star] else
   match majorType (base mime) with
   | none => [mime, base mime]
   | some t => [mime, base mime, t ++ slashStar, star]
+
+/-- the documented precedence, key by key (independent of any search order): how specifically a declared key `k`
+matches the header text — 0 the exact text, 1 the text without parameters, 2 `type/*`, 3 `*/*`; `none`: no match.
+An empty header is matched by `*/*` only; a text without '/' is not matched by wildcards. -/
+def rank (mime k : Str) : Option Nat :=
+  if mime = [] then (if k = star then some 3 else none)
+  else if k = mime then some 0
+  else if k = base mime then some 1
+  else match majorType (base mime) with
+    | none => none
+    | some t => if k = t ++ slashStar then some 2 else if k = star then some 3 else none
 
 def firstSome {α : Type} (c : List (Str × α)) : List Str → Option α
   | [] => none
@@ -100,32 +154,46 @@ inductive V
   | obj (kvs : List (Str × V))
   deriving Repr
 
-/-- the schema fragment: own keywords plus the composition keywords `not`, `oneOf`, `anyOf`, `allOf` -/
+/-- further keywords of a schema, kept in one record: `default` (none: no default, or `default: null`, which Go
+reads as a nil `Default`), `minProperties` (0 = absent), `maxProperties` -/
+structure Extra where
+  dflt : Option V := none
+  minProps : Nat := 0
+  maxProps : Option Nat := none
+  deriving Repr
+
+/-- the schema fragment: own keywords plus the composition keywords `not`, `oneOf`, `anyOf`, `allOf`, and the
+`default` keyword (a value; it plays no role in satisfaction, only in `visD` below) -/
 inductive RS
   | mk (ty : Option Ty) (nullable ro wo : Bool) (minLen : Nat) (max : Option Int)
        (props : List (Str × RS)) (required : List Str) (addl : Option Bool) (items : Option RS)
-       (nt : Option RS) (oneOf anyOf allOf : List RS)
+       (nt : Option RS) (oneOf anyOf allOf : List RS) (dflt : Extra)
   deriving Repr
 
 namespace RS
-def ty : RS → Option Ty | mk t _ _ _ _ _ _ _ _ _ _ _ _ _ => t
-def nullable : RS → Bool | mk _ n _ _ _ _ _ _ _ _ _ _ _ _ => n
-def ro : RS → Bool | mk _ _ r _ _ _ _ _ _ _ _ _ _ _ => r
-def wo : RS → Bool | mk _ _ _ w _ _ _ _ _ _ _ _ _ _ => w
-def minLen : RS → Nat | mk _ _ _ _ m _ _ _ _ _ _ _ _ _ => m
-def max : RS → Option Int | mk _ _ _ _ _ m _ _ _ _ _ _ _ _ => m
-def props : RS → List (Str × RS) | mk _ _ _ _ _ _ p _ _ _ _ _ _ _ => p
-def required : RS → List Str | mk _ _ _ _ _ _ _ r _ _ _ _ _ _ => r
-def addl : RS → Option Bool | mk _ _ _ _ _ _ _ _ a _ _ _ _ _ => a
-def items : RS → Option RS | mk _ _ _ _ _ _ _ _ _ i _ _ _ _ => i
-def nt : RS → Option RS | mk _ _ _ _ _ _ _ _ _ _ n _ _ _ => n
-def oneOf : RS → List RS | mk _ _ _ _ _ _ _ _ _ _ _ o _ _ => o
-def anyOf : RS → List RS | mk _ _ _ _ _ _ _ _ _ _ _ _ a _ => a
-def allOf : RS → List RS | mk _ _ _ _ _ _ _ _ _ _ _ _ _ a => a
+def ty : RS → Option Ty | mk t _ _ _ _ _ _ _ _ _ _ _ _ _ _ => t
+def nullable : RS → Bool | mk _ n _ _ _ _ _ _ _ _ _ _ _ _ _ => n
+def ro : RS → Bool | mk _ _ r _ _ _ _ _ _ _ _ _ _ _ _ => r
+def wo : RS → Bool | mk _ _ _ w _ _ _ _ _ _ _ _ _ _ _ => w
+def minLen : RS → Nat | mk _ _ _ _ m _ _ _ _ _ _ _ _ _ _ => m
+def max : RS → Option Int | mk _ _ _ _ _ m _ _ _ _ _ _ _ _ _ => m
+def props : RS → List (Str × RS) | mk _ _ _ _ _ _ p _ _ _ _ _ _ _ _ => p
+def required : RS → List Str | mk _ _ _ _ _ _ _ r _ _ _ _ _ _ _ => r
+def addl : RS → Option Bool | mk _ _ _ _ _ _ _ _ a _ _ _ _ _ _ => a
+def items : RS → Option RS | mk _ _ _ _ _ _ _ _ _ i _ _ _ _ _ => i
+def nt : RS → Option RS | mk _ _ _ _ _ _ _ _ _ _ n _ _ _ _ => n
+def oneOf : RS → List RS | mk _ _ _ _ _ _ _ _ _ _ _ o _ _ _ => o
+def anyOf : RS → List RS | mk _ _ _ _ _ _ _ _ _ _ _ _ a _ _ => a
+def allOf : RS → List RS | mk _ _ _ _ _ _ _ _ _ _ _ _ _ a _ => a
+def extra : RS → Extra | mk _ _ _ _ _ _ _ _ _ _ _ _ _ _ d => d
+/-- the `default` keyword (`none`: no default or `default: null`, which Go reads as a nil `Default`) -/
+def dflt (s : RS) : Option V := s.extra.dflt
+def minProps (s : RS) : Nat := s.extra.minProps
+def maxProps (s : RS) : Option Nat := s.extra.maxProps
 /-- a schema without composition keywords -/
 def leaf (ty : Option Ty) (nullable ro wo : Bool) (minLen : Nat) (max : Option Int)
     (props : List (Str × RS)) (required : List Str) (addl : Option Bool) (items : Option RS) : RS :=
-  mk ty nullable ro wo minLen max props required addl items none [] [] []
+  mk ty nullable ro wo minLen max props required addl items none [] [] [] {}
 end RS
 
 instance : Inhabited V := ⟨.null⟩
@@ -173,7 +241,7 @@ def hasComp (s : RS) : Bool := !(s.oneOf.isEmpty && s.anyOf.isEmpty && s.allOf.i
 def isEmptyLeaf (s : RS) : Bool :=
   s.ty.isNone && !s.nullable && !s.ro && !s.wo && s.minLen == 0 && s.max.isNone &&
   s.required.isEmpty && s.addl != some false && s.props.isEmpty && s.items.isNone &&
-  s.nt.isNone && s.oneOf.isEmpty && s.anyOf.isEmpty && s.allOf.isEmpty
+  s.nt.isNone && s.oneOf.isEmpty && s.anyOf.isEmpty && s.allOf.isEmpty && s.minProps == 0 && s.maxProps.isNone
 
 /-! #### `visitJSON`: composition layer (recursion over the schema) and own keywords (recursion over the value)
 
@@ -186,15 +254,15 @@ mutual
 /-- `visitJSON` of schema and sub-schemas on ONE value: `isNull` tells whether the value is null, `own s` is the
 verdict of the type-specific visitor of `s` on the value (`visitJSONNull` for null: `s.nullable`) -/
 def comp (isNull : Bool) (own : RS → Bool) : RS → Bool
-  | .mk ty nullable ro wo ml mx props req addl items nt oneOf anyOf allOf =>
+  | .mk ty nullable ro wo ml mx props req addl items nt oneOf anyOf allOf dflt =>
     if isNull && nullable then true
-    else if isEmptyLeaf (.mk ty nullable ro wo ml mx props req addl items nt oneOf anyOf allOf) then !isNull
+    else if isEmptyLeaf (.mk ty nullable ro wo ml mx props req addl items nt oneOf anyOf allOf dflt) then !isNull
     else compNot isNull own nt &&
          (oneOf.isEmpty || compCount isNull own oneOf == 1) &&
          (anyOf.isEmpty || compAny isNull own anyOf) &&
          compAll isNull own allOf &&
          (if isNull && !(oneOf.isEmpty && anyOf.isEmpty && allOf.isEmpty) then true
-          else own (.mk ty nullable ro wo ml mx props req addl items nt oneOf anyOf allOf))
+          else own (.mk ty nullable ro wo ml mx props req addl items nt oneOf anyOf allOf dflt))
 /-- `visitNotOperation` -/
 def compNot (isNull : Bool) (own : RS → Bool) : Option RS → Bool
   | none => true
@@ -222,8 +290,12 @@ def ownArr (fs : List (RS → Bool)) (s : RS) : Bool :=
 /-- the loop over the value's keys: declared property → its schema; else additionalProperties -/
 def fieldsOK (s : RS) (fs : List (Str × (RS → Bool))) : Bool :=
   fs.all fun kf => match lookup kf.1 s.props with | some p => kf.2 p | none => s.addl != some false
+/-- `minProperties` / `maxProperties` against the number of members (`v != 0 && len < v`, `v != nil && len > *v`) -/
+def countOK (s : RS) (n : Nat) : Bool :=
+  decide (s.minProps ≤ n) && (match s.maxProps with | none => true | some m => decide (n ≤ m))
 def ownObj (exro : Bool) (fs : List (Str × (RS → Bool))) (s : RS) : Bool :=
-  permits s.ty .object && roLoopOK exro s.props (keys fs) && fieldsOK s fs && requiredOK s (keys fs)
+  permits s.ty .object && roLoopOK exro s.props (keys fs) && countOK s fs.length && fieldsOK s fs &&
+  requiredOK s (keys fs)
 
 mutual
 /-- `Schema.visitJSON` with `VisitAsRequest()`; `exro` = `DisableReadOnlyValidation()`. `true` = nil error. -/
@@ -248,9 +320,9 @@ def visit (exro : Bool) (s : RS) (v : V) : Bool := visitV exro v s
 mutual
 /-- the schema with every `writeOnly` flag cleared (used to state that write-only plays no role in requests) -/
 def RS.clearWO : RS → RS
-  | .mk t n r _ ml mx props req a items nt oneOf anyOf allOf =>
+  | .mk t n r _ ml mx props req a items nt oneOf anyOf allOf dflt =>
     .mk t n r false ml mx (clearWOProps props) req a (clearWOOpt items) (clearWOOpt nt)
-      (clearWOList oneOf) (clearWOList anyOf) (clearWOList allOf)
+      (clearWOList oneOf) (clearWOList anyOf) (clearWOList allOf) dflt
 def clearWOProps : List (Str × RS) → List (Str × RS)
   | [] => []
   | (k, p) :: r => (k, p.clearWO) :: clearWOProps r
@@ -270,7 +342,7 @@ A non-null value satisfies `s` iff it satisfies the own keywords, is rejected by
 one `oneOf` member, some `anyOf` member and every `allOf` member. `null` is admitted where the schema is
 nullable, or (the library's documented reading of OAS 3.0) where compositions are present and admit it. -/
 def SatC (isNull : Bool) (Own : RS → Prop) : RS → Prop
-  | .mk ty nullable ro wo ml mx props req addl items nt oneOf anyOf allOf =>
+  | .mk ty nullable ro wo ml mx props req addl items nt oneOf anyOf allOf dflt =>
     if isNull then
       nullable = true ∨
         ((oneOf ≠ [] ∨ anyOf ≠ [] ∨ allOf ≠ []) ∧
@@ -278,7 +350,7 @@ def SatC (isNull : Bool) (Own : RS → Prop) : RS → Prop
           SatAll isNull Own allOf)
     else
       SatNot isNull Own nt ∧ (oneOf = [] ∨ SatOne isNull Own oneOf) ∧ (anyOf = [] ∨ SatAny isNull Own anyOf) ∧
-      SatAll isNull Own allOf ∧ Own (.mk ty nullable ro wo ml mx props req addl items nt oneOf anyOf allOf)
+      SatAll isNull Own allOf ∧ Own (.mk ty nullable ro wo ml mx props req addl items nt oneOf anyOf allOf dflt)
 def SatNot (isNull : Bool) (Own : RS → Prop) : Option RS → Prop
   | none => True
   | some n => ¬ SatC isNull Own n
@@ -310,6 +382,7 @@ def FieldsSat (s : RS) (Fs : List (Str × (RS → Prop))) : Prop :=
 exclusion option `exro` is set) and need not be present even if required; write-only properties are ordinary -/
 def OwnObj (exro : Bool) (Fs : List (Str × (RS → Prop))) (s : RS) : Prop :=
   (s.ty = none ∨ s.ty = some .object) ∧ FieldsSat s Fs ∧
+  s.minProps ≤ Fs.length ∧ (∀ m, s.maxProps = some m → Fs.length ≤ m) ∧
   (∀ k ∈ s.required, k ∈ keys Fs ∨ isRO (lookup k s.props) = true) ∧
   (exro = false → ∀ k, isRO (lookup k s.props) = true → k ∉ keys Fs)
 
@@ -336,7 +409,7 @@ def SatReq (exro : Bool) (s : RS) (v : V) : Prop := SatV exro v s
 mutual
 /-- executable twin of `SatC` (no shortcuts, clause by clause) -/
 def satCB (isNull : Bool) (own : RS → Bool) : RS → Bool
-  | .mk ty nullable ro wo ml mx props req addl items nt oneOf anyOf allOf =>
+  | .mk ty nullable ro wo ml mx props req addl items nt oneOf anyOf allOf dflt =>
     if isNull then
       nullable ||
         (!(oneOf.isEmpty && anyOf.isEmpty && allOf.isEmpty) &&
@@ -345,7 +418,7 @@ def satCB (isNull : Bool) (own : RS → Bool) : RS → Bool
     else
       satNotB isNull own nt && (oneOf.isEmpty || satCountB isNull own oneOf == 1) &&
       (anyOf.isEmpty || satAnyB isNull own anyOf) && satAllB isNull own allOf &&
-      own (.mk ty nullable ro wo ml mx props req addl items nt oneOf anyOf allOf)
+      own (.mk ty nullable ro wo ml mx props req addl items nt oneOf anyOf allOf dflt)
 def satNotB (isNull : Bool) (own : RS → Bool) : Option RS → Bool
   | none => true
   | some n => !satCB isNull own n
@@ -384,13 +457,361 @@ mutual
 /-- a structural measure over the composition keywords; its generated induction principle is the induction
 over "schema and composition members" used by the lemmas -/
 def cdepth : RS → Nat
-  | .mk _ _ _ _ _ _ _ _ _ _ nt oneOf anyOf allOf => 1 + cdepthO nt + cdepthL oneOf + cdepthL anyOf + cdepthL allOf
+  | .mk _ _ _ _ _ _ _ _ _ _ nt oneOf anyOf allOf _ => 1 + cdepthO nt + cdepthL oneOf + cdepthL anyOf + cdepthL allOf
 def cdepthO : Option RS → Nat
   | none => 0
   | some s => cdepth s
 def cdepthL : List RS → Nat
   | [] => 0
   | s :: r => cdepth s + cdepthL r
+end
+
+/-! ### `visitJSON` with `DefaultsSet` installed (`Options.SkipSettingDefaults = false`, the default of openapi3filter)
+
+With `DefaultsSet` the validator **mutates** the decoded value while it validates it: at the head of
+`visitJSONObject` every declared property whose key is absent and whose schema has a (non-nil) `default` receives a
+deep copy of that default — unless the property is read-only in a request (`reqRO`); the injected value is then
+visited like any other member (so a default is itself validated, and completed by its own nested defaults).
+`allOf` members run on the value one after the other (each sees what the earlier ones injected, and so do the
+schema's own keywords, which come last); every `oneOf` / `anyOf` member runs on its own deep copy, and the matched
+member (the only one / the first one) is run again on the value itself.
+
+`visD ds exro s v = none` — rejected; `some v'` — accepted, `v'` is the value afterwards. Structural recursion
+over the schema (an injected default comes out of the schema, not out of the value). The partial mutations of a
+*failing* visit are never seen — except below `not` (where the failing visit is the good case): defaults below
+`not` are outside this model (`dfltUnderNot`, `unmodelled`). -/
+
+def guardV (b : Bool) (v : V) : Option V := if b then some v else none
+
+def setKey (k : Str) (v : V) : List (Str × V) → List (Str × V)
+  | [] => [(k, v)]
+  | (k', v') :: r => if k = k' then (k, v) :: r else (k', v') :: setKey k v r
+
+/-- `reqRO := settings.asreq && propSchema.Value.ReadOnly && !settings.readOnlyValidationDisabled` -/
+def reqRO (exro : Bool) (p : RS) : Bool := p.ro && !exro
+
+/-- the default an absent property receives: none for a property that is read-only in a request
+(`dflt != nil && !reqRO && !repWO`; `repWO` is false in a request) -/
+def dfltFor (exro : Bool) (p : RS) : Option V := if reqRO exro p then none else p.dflt
+
+/-- the injection loop at the head of `visitJSONObject` (`_, present := value[propName]; !present`: since repair
+c740938 a key that is present with the value null is left alone) -/
+def inject (exro : Bool) : List (Str × RS) → List (Str × V) → List (Str × V)
+  | [], kvs => kvs
+  | (k, p) :: r, kvs =>
+    inject exro r (match lookup k kvs, dfltFor exro p with
+                   | none, some d => kvs ++ [(k, d)]
+                   | _, _ => kvs)
+
+/-- some property receives its default (`settings.onceSettingDefaults.Do(settings.defaultsSet)` fires) -/
+def injects (exro : Bool) (props : List (Str × RS)) (kvs : List (Str × V)) : Bool :=
+  props.any fun kp => (lookup kp.1 kvs).isNone && (dfltFor exro kp.2).isSome
+
+/-- the members `visitJSONObject` works on: after the injection loop when `DefaultsSet` is installed -/
+def injD (ds exro : Bool) (props : List (Str × RS)) (kvs : List (Str × V)) : List (Str × V) :=
+  if ds then inject exro props kvs else kvs
+
+/-- undeclared keys need `additionalProperties` -/
+def addlOKD (s : RS) (kvs : List (Str × V)) : Bool :=
+  kvs.all fun kv => (lookup kv.1 s.props).isSome || s.addl != some false
+
+/-- one declared property: visited when its key is present; the visit may complete the member -/
+def propStep (k : Str) (f : V → Option V) (kvs : List (Str × V)) : Option (List (Str × V)) :=
+  match lookup k kvs with
+  | none => some kvs
+  | some x => (f x).map fun x' => setKey k x' kvs
+
+def mapOpt (f : V → Option V) : List V → Option (List V)
+  | [] => some []
+  | x :: xs => (f x).bind fun y => (mapOpt f xs).map fun ys => y :: ys
+
+/-- `ok == 1` -/
+def pickOne : List V → Option V
+  | [x] => some x
+  | _ => none
+
+/-- the type-specific visitors; `fProps` / `fItems` visit the (declared, present) members / the items -/
+def ownK (ds exro : Bool) (s : RS) (fProps : List (Str × V) → Option (List (Str × V)))
+    (fItems : List V → Option (List V)) : V → Option V
+  | .null => guardV s.nullable .null
+  | .bool b => guardV (ownBool s) (.bool b)
+  | .int n => guardV (ownInt n s) (.int n)
+  | .half n => guardV (ownHalf n s) (.half n)
+  | .str t => guardV (ownStr t s) (.str t)
+  | .arr xs => if permits s.ty .array then (fItems xs).map .arr else none
+  | .obj kvs =>
+    if permits s.ty .object && roLoopOK exro s.props (keys (injD ds exro s.props kvs)) &&
+       countOK s (injD ds exro s.props kvs).length &&
+       addlOKD s (injD ds exro s.props kvs) && requiredOK s (keys (injD ds exro s.props kvs))
+    then (fProps (injD ds exro s.props kvs)).map .obj else none
+
+/-- `visitJSON` of one schema, given the visitors of its parts (same order as `comp`) -/
+def compK (s : RS) (v : V) (fNot : V → Bool) (fOne fAny : V → List V) (fAll : V → Option V)
+    (fOwn : V → Option V) : Option V :=
+  if v.isNull && s.nullable then some v
+  else if isEmptyLeaf s then (if v.isNull then none else some v)
+  else if !fNot v then none
+  else (if s.oneOf.isEmpty then some v else pickOne (fOne v)).bind fun v1 =>
+       (if s.anyOf.isEmpty then some v1 else (fAny v1).head?).bind fun v2 =>
+       (fAll v2).bind fun v3 =>
+       if v3.isNull && hasComp s then some v3 else fOwn v3
+
+mutual
+def visD (ds exro : Bool) : RS → V → Option V
+  | .mk ty n r w ml mx props req a items nt oneOf anyOf allOf dflt => fun v =>
+    compK (.mk ty n r w ml mx props req a items nt oneOf anyOf allOf dflt) v
+      (visNot ds exro nt) (visMatches ds exro oneOf) (visMatches ds exro anyOf) (visAll ds exro allOf)
+      (ownK ds exro (.mk ty n r w ml mx props req a items nt oneOf anyOf allOf dflt)
+        (visProps ds exro props) (visItems ds exro items))
+/-- `visitNotOperation`: passes iff the schema under `not` rejects -/
+def visNot (ds exro : Bool) : Option RS → V → Bool
+  | none => fun _ => true
+  | some x => fun v => (visD ds exro x v).isNone
+/-- the results of the members that accept, each on its own deep copy -/
+def visMatches (ds exro : Bool) : List RS → V → List V
+  | [] => fun _ => []
+  | x :: r => fun v => (visD ds exro x v).toList ++ visMatches ds exro r v
+/-- `allOf`: the members run on the value one after the other -/
+def visAll (ds exro : Bool) : List RS → V → Option V
+  | [] => fun v => some v
+  | x :: r => fun v => (visD ds exro x v).bind (visAll ds exro r)
+/-- the declared properties that are present, each visited with its schema -/
+def visProps (ds exro : Bool) : List (Str × RS) → List (Str × V) → Option (List (Str × V))
+  | [] => fun kvs => some kvs
+  | (k, p) :: r => fun kvs => (propStep k (visD ds exro p) kvs).bind (visProps ds exro r)
+def visItems (ds exro : Bool) : Option RS → List V → Option (List V)
+  | none => fun xs => some xs
+  | some it => fun xs => mapOpt (visD ds exro it) xs
+end
+
+/-! #### does a default fire? (`defaultsSet` is called: the body will be re-encoded)
+
+Over-approximation by full traversal: every member of `oneOf`, the members of `anyOf` up to the first match, the
+members of `allOf` as long as they pass, every declared present property and every item — whether the visit
+passes or not (the deep copies are thrown away, the flag is not). -/
+
+def firesOwn (exro : Bool) (s : RS) (fProps : List (Str × V) → Bool) (fItems : List V → Bool) : V → Bool
+  | .obj kvs => permits s.ty .object && (injects exro s.props kvs || fProps (inject exro s.props kvs))
+  | .arr xs => permits s.ty .array && fItems xs
+  | _ => false
+
+def firesPropStep (k : Str) (fF : V → Bool) (fV : V → Option V) (kvs : List (Str × V))
+    (rest : List (Str × V) → Bool) : Bool :=
+  match lookup k kvs with
+  | none => rest kvs
+  | some x => fF x || rest (match fV x with | some x' => setKey k x' kvs | none => kvs)
+
+def firesAllStep (fired : Bool) (res : Option V) (rest : V → Bool) : Bool :=
+  fired || (match res with | some v' => rest v' | none => false)
+
+def firesK (s : RS) (v : V) (fNot : V → Bool) (fOne fAny : V → List V) (fAll : V → Option V)
+    (gNot gOne gAny gAll gOwn : V → Bool) : Bool :=
+  if v.isNull && s.nullable then false
+  else if isEmptyLeaf s then false
+  else gNot v || (fNot v &&
+    (gOne v ||
+      match (if s.oneOf.isEmpty then some v else pickOne (fOne v)) with
+      | none => false
+      | some v1 => gAny v1 ||
+        match (if s.anyOf.isEmpty then some v1 else (fAny v1).head?) with
+        | none => false
+        | some v2 => gAll v2 ||
+          match fAll v2 with
+          | none => false
+          | some v3 => if v3.isNull && hasComp s then false else gOwn v3))
+
+mutual
+def firesD (exro : Bool) : RS → V → Bool
+  | .mk ty n r w ml mx props req a items nt oneOf anyOf allOf dflt => fun v =>
+    firesK (.mk ty n r w ml mx props req a items nt oneOf anyOf allOf dflt) v
+      (visNot true exro nt) (visMatches true exro oneOf) (visMatches true exro anyOf) (visAll true exro allOf)
+      (firesNot exro nt) (firesAny exro oneOf) (firesUpto exro anyOf) (firesAll exro allOf)
+      (firesOwn exro (.mk ty n r w ml mx props req a items nt oneOf anyOf allOf dflt)
+        (firesProps exro props) (firesItems exro items))
+def firesNot (exro : Bool) : Option RS → V → Bool
+  | none => fun _ => false
+  | some x => fun v => firesD exro x v
+def firesAny (exro : Bool) : List RS → V → Bool
+  | [] => fun _ => false
+  | x :: r => fun v => firesD exro x v || firesAny exro r v
+def firesUpto (exro : Bool) : List RS → V → Bool
+  | [] => fun _ => false
+  | x :: r => fun v => firesD exro x v || ((visD true exro x v).isNone && firesUpto exro r v)
+def firesAll (exro : Bool) : List RS → V → Bool
+  | [] => fun _ => false
+  | x :: r => fun v => firesAllStep (firesD exro x v) (visD true exro x v) (firesAll exro r)
+def firesProps (exro : Bool) : List (Str × RS) → List (Str × V) → Bool
+  | [] => fun _ => false
+  | (k, p) :: r => fun kvs => firesPropStep k (firesD exro p) (visD true exro p) kvs (firesProps exro r)
+def firesItems (exro : Bool) : Option RS → List V → Bool
+  | none => fun _ => false
+  | some it => fun xs => xs.any (firesD exro it)
+end
+
+/-! #### well-formedness (keys of Go maps are distinct) and syntactic classes of schemas -/
+
+def nodupKeys : List Str → Bool
+  | [] => true
+  | k :: r => !r.contains k && nodupKeys r
+
+mutual
+/-- object keys are distinct at every depth -/
+def V.wf : V → Bool
+  | .arr xs => V.wfL xs
+  | .obj kvs => nodupKeys (keys kvs) && V.wfKV kvs
+  | _ => true
+def V.wfL : List V → Bool
+  | [] => true
+  | x :: r => x.wf && V.wfL r
+def V.wfKV : List (Str × V) → Bool
+  | [] => true
+  | (_, x) :: r => x.wf && V.wfKV r
+end
+
+def wfDflt : Option V → Bool
+  | none => true
+  | some d => d.wf
+
+mutual
+/-- property names are distinct in every `properties` map, defaults are well-formed values -/
+def RS.wf : RS → Bool
+  | .mk _ _ _ _ _ _ props _ _ items nt oneOf anyOf allOf dflt =>
+    nodupKeys (keys props) && wfProps props && wfOpt items && wfOpt nt && wfList oneOf && wfList anyOf &&
+    wfList allOf && wfDflt dflt.dflt
+def wfProps : List (Str × RS) → Bool
+  | [] => true
+  | (_, p) :: r => p.wf && wfProps r
+def wfOpt : Option RS → Bool
+  | none => true
+  | some s => s.wf
+def wfList : List RS → Bool
+  | [] => true
+  | s :: r => s.wf && wfList r
+end
+
+mutual
+/-- a `default` occurs somewhere in the schema -/
+def hasDflt : RS → Bool
+  | .mk _ _ _ _ _ _ props _ _ items nt oneOf anyOf allOf dflt =>
+    dflt.dflt.isSome || hasDfltP props || hasDfltO items || hasDfltO nt || hasDfltL oneOf || hasDfltL anyOf || hasDfltL allOf
+def hasDfltP : List (Str × RS) → Bool
+  | [] => false
+  | (_, p) :: r => hasDflt p || hasDfltP r
+def hasDfltO : Option RS → Bool
+  | none => false
+  | some s => hasDflt s
+def hasDfltL : List RS → Bool
+  | [] => false
+  | s :: r => hasDflt s || hasDfltL r
+end
+
+mutual
+/-- a `default` occurs below a `not` (outside the model of `visD`: the partial mutations of the failing visit
+below `not` stay in the value) -/
+def dfltUnderNot : RS → Bool
+  | .mk _ _ _ _ _ _ props _ _ items nt oneOf anyOf allOf _ =>
+    hasDfltO nt || dfltUnderNotP props || dfltUnderNotO items || dfltUnderNotO nt || dfltUnderNotL oneOf ||
+    dfltUnderNotL anyOf || dfltUnderNotL allOf
+def dfltUnderNotP : List (Str × RS) → Bool
+  | [] => false
+  | (_, p) :: r => dfltUnderNot p || dfltUnderNotP r
+def dfltUnderNotO : Option RS → Bool
+  | none => false
+  | some s => dfltUnderNot s
+def dfltUnderNotL : List RS → Bool
+  | [] => false
+  | s :: r => dfltUnderNot s || dfltUnderNotL r
+end
+
+mutual
+/-- no composition keyword anywhere in the schema -/
+def compFree : RS → Bool
+  | .mk _ _ _ _ _ _ props _ _ items nt oneOf anyOf allOf _ =>
+    nt.isNone && oneOf.isEmpty && anyOf.isEmpty && allOf.isEmpty && compFreeP props && compFreeO items
+def compFreeP : List (Str × RS) → Bool
+  | [] => true
+  | (_, p) :: r => compFree p && compFreeP r
+def compFreeO : Option RS → Bool
+  | none => true
+  | some s => compFree s
+end
+
+/-- the properties of one object schema that can receive a default: the default is accepted by the property's own
+schema (read as a request, itself completed), the property is not listed in `required`, and the object schema does
+not count its members (`counted`: minProperties / maxProperties present) -/
+def dfltsHarmlessHere (exro : Bool) (props : List (Str × RS)) (required : List Str) (counted : Bool)
+    (accepts : RS → V → Bool) : Bool :=
+  props.all fun kp =>
+    match dfltFor exro kp.2 with
+    | none => true
+    | some d => accepts kp.2 d && !required.contains kp.1 && !counted
+
+mutual
+/-- **defaults cannot change the verdict** (composition-free schemas): every default that can be injected, at any
+depth, conforms to its own schema and belongs to a property that is not required -/
+def dfltsHarmless (exro : Bool) : RS → Bool
+  | .mk _ _ _ _ _ _ props req _ items _ _ _ _ dflt =>
+    dfltsHarmlessHere exro props req (dflt.minProps != 0 || dflt.maxProps.isSome)
+      (fun p d => (visD true exro p d).isSome) &&
+    dfltsHarmlessP exro props && dfltsHarmlessO exro items
+def dfltsHarmlessP (exro : Bool) : List (Str × RS) → Bool
+  | [] => true
+  | (_, p) :: r => dfltsHarmless exro p && dfltsHarmlessP exro r
+def dfltsHarmlessO (exro : Bool) : Option RS → Bool
+  | none => true
+  | some s => dfltsHarmless exro s
+end
+
+/-! #### the completed value (two-phase reading of default-setting: first complete, then validate) -/
+
+/-- one declared property of an object under completion: a present member is completed with its schema -/
+def completeStep (k : Str) (f : V → V) (kvs : List (Str × V)) : List (Str × V) :=
+  match lookup k kvs with
+  | none => kvs
+  | some x => setKey k (f x) kvs
+
+def completeK (inj fP : List (Str × V) → List (Str × V)) (fI : List V → List V) : V → V
+  | .obj kvs => .obj (fP (inj kvs))
+  | .arr xs => .arr (fI xs)
+  | v => v
+
+mutual
+/-- `complete exro s v`: every absent property that has a default (and is not read-only in a request) receives it,
+at every depth of properties and items — including inside the injected defaults themselves. Composition keywords
+are not looked at (the two-phase reading is stated for composition-free schemas). -/
+def complete (exro : Bool) : RS → V → V
+  | .mk _ _ _ _ _ _ props _ _ items _ _ _ _ _ => fun v =>
+    completeK (inject exro props) (completeProps exro props) (completeItems exro items) v
+def completeProps (exro : Bool) : List (Str × RS) → List (Str × V) → List (Str × V)
+  | [] => fun kvs => kvs
+  | (k, p) :: r => fun kvs => completeProps exro r (completeStep k (complete exro p) kvs)
+def completeItems (exro : Bool) : Option RS → List V → List V
+  | none => fun xs => xs
+  | some it => fun xs => xs.map (complete exro it)
+end
+
+/-- where the request-side reading of the property text decides the verdict also under default-setting: no
+default fires on this value, or the schema is composition-free with harmless defaults -/
+def defaultsNeutral (exro : Bool) (s : RS) (v : V) : Bool :=
+  !firesD exro s v || (compFree s && dfltsHarmless exro s)
+
+mutual
+/-- a `default` at nesting depth ≥ 2 of an object schema (below a property or an item, looking through
+composition members) -/
+def nestedDflt : RS → Bool
+  | .mk _ _ _ _ _ _ props _ _ items nt oneOf anyOf allOf _ =>
+    nestedDfltP props || hasDfltO items || nestedDfltO nt || nestedDfltL oneOf || nestedDfltL anyOf || nestedDfltL allOf
+def nestedDfltP : List (Str × RS) → Bool
+  | [] => false
+  | (_, p) :: r =>
+    hasDfltP p.props || hasDfltO p.items || hasDfltO p.nt || hasDfltL p.oneOf || hasDfltL p.anyOf || hasDfltL p.allOf ||
+    nestedDfltP r
+def nestedDfltO : Option RS → Bool
+  | none => false
+  | some s => nestedDflt s
+def nestedDfltL : List RS → Bool
+  | [] => false
+  | s :: r => nestedDflt s || nestedDfltL r
 end
 
 /-! ### Decoders -/
@@ -441,6 +862,8 @@ structure Part where
   ct : Str              -- the part's Content-Type header ("" = none)
   text : Str            -- the part's content
   json : Option V       -- what `encoding/json` makes of `text`
+  yaml : Option V := none                   -- what yaml3 makes of `text`
+  csv : Option (List (List Str)) := none    -- what `encoding/csv` makes of `text`
   deriving Repr
 
 structure BodyIn where
@@ -448,6 +871,10 @@ structure BodyIn where
   json : Option V
   form : Option (List (Str × List Str))
   parts : Option (List Part)
+  /-- what `yaml3.NewDecoder(body).Decode` makes of the text (first document; none = error) -/
+  yaml : Option V := none
+  /-- what `encoding/csv` makes of the text: the records (none = error) -/
+  csv : Option (List (List Str)) := none
   deriving Repr
 
 /-- outcome of a decoder -/
@@ -455,15 +882,29 @@ inductive Dec
   | err                 -- a ParseError / error
   | val (v : V)
   | panic               -- nil dereference (array property without `items` in the urlencoded pre-check)
-  | unmodelled          -- YAML / CSV / nested form decoders: outside this model (never generated)
+  | unmodelled          -- YAML / CSV / form decoders nested inside multipart parts: outside this model (never generated)
   deriving Repr
 
-/-- `JSONBodyDecoder`, `PlainBodyDecoder`, `FileBodyDecoder` on one piece of text -/
-def decodeSimple (k : DecK) (text : Str) (json : Option V) : Dec :=
+/-- `CsvBodyDecoder`: every record joined with "," and terminated by a newline, as one string -/
+def csvLine : List Str → Str
+  | [] => []
+  | [x] => x
+  | x :: y :: r => x ++ ',' :: csvLine (y :: r)
+
+def csvJoin : List (List Str) → Str
+  | [] => []
+  | r :: rs => csvLine r ++ '\n' :: csvJoin rs
+
+/-- `JSONBodyDecoder`, `PlainBodyDecoder`, `FileBodyDecoder`, `YamlBodyDecoder`, `CsvBodyDecoder` on one piece of
+text (the whole body or one multipart part), given what the trusted parsers make of it -/
+def decodeSimple (k : DecK) (text : Str) (json : Option V) (yaml : Option V := none)
+    (csv : Option (List (List Str)) := none) : Dec :=
   match k with
   | .json => (match json with | some v => .val v | none => .err)
   | .plain => .val (.str text)
   | .file => .val (.str text)
+  | .yaml => (match yaml with | some v => .val v | none => .err)
+  | .csv => (match csv with | some recs => .val (.str (csvJoin recs)) | none => .err)
   | _ => .unmodelled
 
 /-! #### number / boolean texts (`strconv` on the decimal subset) -/
@@ -607,12 +1048,12 @@ mutual
 /-- `decodeValue` with its composition branches (in the code's order: allOf, anyOf, oneOf, not, type):
 `none` = error, `some .null` = nil value -/
 def decodePropC (fields : List (Str × List Str)) (name : Str) (e : Option Enc) : RS → Option V
-  | .mk ty n r w ml mx props req a items nt oneOf anyOf allOf =>
+  | .mk ty n r w ml mx props req a items nt oneOf anyOf allOf dflt =>
     if !allOf.isEmpty then decAll fields name e allOf .null
     else if !anyOf.isEmpty then some (decAny fields name e anyOf)
     else if !oneOf.isEmpty then some (decOne fields name e oneOf .null)
     else if nt.isSome then none          -- "not implemented: decoding 'not'"
-    else decodeFormProp fields name (.mk ty n r w ml mx props req a items nt oneOf anyOf allOf) e
+    else decodeFormProp fields name (.mk ty n r w ml mx props req a items nt oneOf anyOf allOf dflt) e
 /-- allOf: every member decodes the same field; the loop stops at a nil value or an error; the LAST value counts -/
 def decAll (fields : List (Str × List Str)) (name : Str) (e : Option Enc) : List RS → V → Option V
   | [], acc => some acc
@@ -668,7 +1109,7 @@ mutual
 /-- the property declarations in the order `decodeSchemaConstructs` meets them: the members of `allOf`, `anyOf`,
 `oneOf` first (recursively), then the schema's own properties; all with the same `encFn` -/
 def flatDecls : RS → List (Str × RS)
-  | .mk _ _ _ _ _ _ props _ _ _ _ oneOf anyOf allOf =>
+  | .mk _ _ _ _ _ _ props _ _ _ _ oneOf anyOf allOf _ =>
     flatDeclsL allOf ++ flatDeclsL anyOf ++ flatDeclsL oneOf ++ props
 def flatDeclsL : List RS → List (Str × RS)
   | [] => []
@@ -716,10 +1157,10 @@ def declOK (p : RS) : Bool :=
 mutual
 /-- … or a composition of such declarations (property-level allOf / anyOf / oneOf / not, any depth) -/
 def declOKC : RS → Bool
-  | .mk ty n r w ml mx props req a items nt oneOf anyOf allOf =>
+  | .mk ty n r w ml mx props req a items nt oneOf anyOf allOf dflt =>
     if !(allOf.isEmpty && anyOf.isEmpty && oneOf.isEmpty && nt.isNone) then
       declOKL allOf && declOKL anyOf && declOKL oneOf
-    else declOK (.mk ty n r w ml mx props req a items nt oneOf anyOf allOf)
+    else declOK (.mk ty n r w ml mx props req a items nt oneOf anyOf allOf dflt)
 def declOKL : List RS → Bool
   | [] => true
   | x :: r => declOKC x && declOKL r
@@ -752,7 +1193,7 @@ def decodePart (reg : List (Str × DecK)) (p : Part) : Dec :=
   let ct := if p.ct = [] then "text/plain".toList else p.ct
   match lookup (base ct) reg with
   | none => .err
-  | some k => decodeSimple k p.text p.json
+  | some k => decodeSimple k p.text p.json p.yaml p.csv
 
 /-- is a part name declared? `MultipartBodyDecoder`: with `allOf` the members' own properties are searched and
 a miss is an error; without, the schema's properties, then additionalProperties (true → skip the part) -/
@@ -821,7 +1262,7 @@ def decodeBody (reg : List (Str × DecK)) (ct : Str) (s : RS) (encs : List (Str 
   | none => .err                               -- "unsupported content type"
   | some .urlencoded => decodeForm s encs b.form
   | some .multipart => decodeMultipart reg s b.parts
-  | some k => decodeSimple k b.text b.json
+  | some k => decodeSimple k b.text b.json b.yaml b.csv
 
 /-! ### `ValidateRequestBody` -/
 
@@ -841,6 +1282,7 @@ inductive Outcome
   | badCT          -- "header Content-Type has unexpected value"
   | decodeErr      -- "failed to decode request body"
   | schemaErr      -- "doesn't match schema"
+  | rewriteErr     -- "rewriting failed" (defaults were set, no body encoder for the media type)
   | panic
   | unmodelled
   deriving DecidableEq, Repr
@@ -861,6 +1303,38 @@ def validateRequestBody (reg : List (Str × DecK)) (rb : ReqBody) (ct : Str) (b 
         | .panic => .panic
         | .unmodelled => .unmodelled
         | .val v => if visit exro s v then .ok else .schemaErr
+
+/-- a body encoder is registered for the media type of the decoder (`bodyEncoders` of req_resp_encoder.go: exactly
+the media types decoded by `JSONBodyDecoder`; `Props/C06.lean` ties this to the regenerated table) -/
+def hasEncoder : Option DecK → Bool
+  | some .json => true
+  | _ => false
+
+/-- the last part of `ValidateRequestBody`: `VisitJSON(value, VisitAsRequest(), DefaultsSet(..)?, …)`, then — when
+a default was set — `encodeBody(value, mediaType)`. `ds` = `!Options.SkipSettingDefaults`; `enc` = an encoder exists.
+Without `DefaultsSet` the validator is the one of `visit`. -/
+def validateValue (enc exro ds : Bool) (s : RS) (v : V) : Outcome :=
+  if !ds then (if visit exro s v then .ok else .schemaErr)
+  else if dfltUnderNot s || (!enc && nestedDflt s && firesD exro s v) then .unmodelled
+  else match visD true exro s v with
+    | none => .schemaErr
+    | some _ => if firesD exro s v && !enc then .rewriteErr else .ok
+
+/-- `ValidateRequestBody` with the option `SkipSettingDefaults` (`ds = false` ⇔ defaults are skipped) -/
+def validateRequestBodyD (reg : List (Str × DecK)) (rb : ReqBody) (ct : Str) (b : BodyIn) (exro ds : Bool) : Outcome :=
+  if b.text = [] then (if rb.required then .missing else .ok)
+  else if rb.content = [] then .ok
+  else match contentGet rb.content ct with
+    | none => .badCT
+    | some mt =>
+      match mt.schema with
+      | none => .ok
+      | some s =>
+        match decodeBody reg ct s mt.encs b with
+        | .err => .decodeErr
+        | .panic => .panic
+        | .unmodelled => .unmodelled
+        | .val v => validateValue (hasEncoder (lookup (base ct) reg)) exro ds s v
 
 /-! ### Specification of the whole decision (from the property text) -/
 
@@ -1000,6 +1474,31 @@ def FormEncodable (p : RS) (e : Option Enc) (v : V) : Prop :=
   | some t => hasTy t v = true ∧ ∀ txt, showPrim v = some txt → txt ≠ []
   | none => False
 
+/-! #### what a multipart body encodes (written from RFC 7578 / the OAS text, not from the decoder's loops) -/
+
+/-- what one part's content encodes under its own Content-Type (a part without one is text/plain, RFC 7578 §4.4);
+`none`: nothing (undecodable content, or a media type without simple decoder) -/
+def specPart (reg : List (Str × DecK)) (p : Part) : Option V :=
+  match lookup (base (if p.ct = [] then "text/plain".toList else p.ct)) reg with
+  | some .json => p.json
+  | some .plain => some (.str p.text)
+  | some .file => some (.str p.text)
+  | some .yaml => p.yaml
+  | some .csv => p.csv.map fun recs => .str (csvJoin recs)
+  | _ => none
+
+/-- the object a list of parts encodes for an object schema: every part must be declared (or ignorable:
+`additionalProperties: true`) and every declared part decodable — in any order; a property declared as array
+collects the values of all its parts in order, any other property takes its first part; properties without a part
+are absent -/
+def specMultipart (reg : List (Str × DecK)) (s : RS) (ps : List Part) : Option V :=
+  if ps.any (fun p => partDecl s p.name == .undefined) then none
+  else if (ps.filter fun p => partDecl s p.name == .found).any (fun p => (specPart reg p).isNone) then none
+  else some (.obj ((assemblyProps s).filterMap fun kp =>
+    match ((ps.filter fun p => partDecl s p.name == .found).filter fun p => p.name = kp.1).filterMap (specPart reg) with
+    | [] => none
+    | v :: vs => some (kp.1, if tyIs kp.2.ty .array then .arr (v :: vs) else v)))
+
 /-- the value a body encodes under the decoder registered for the request's media type (`none`: nothing) -/
 def specDecode (reg : List (Str × DecK)) (ct : Str) (s : RS) (encs : List (Str × Enc)) (b : BodyIn) : Option V :=
   match lookup (base ct) reg with
@@ -1012,9 +1511,10 @@ def specDecode (reg : List (Str × DecK)) (ct : Str) (s : RS) (encs : List (Str 
       | some fields => ((specFormProps fields encs (flatDecls s)).bind mergeKV).map .obj
       | none => none
     else none
-  | some .multipart =>
-    (match decodeMultipart reg s b.parts with | .val v => some v | _ => none)
-  | _ => none
+  | some .multipart => if tyIs s.ty .object then b.parts.bind (specMultipart reg s) else none
+  | some .yaml => b.yaml                                    -- the (first) YAML document
+  | some .csv => b.csv.map fun recs => .str (csvJoin recs)  -- the library's reading: the normalised records as text
+  | none => none
 
 /-- **the property**: a request body is accepted iff … -/
 def Accept (reg : List (Str × DecK)) (rb : ReqBody) (ct : Str) (b : BodyIn) (exro : Bool) : Prop :=
@@ -1081,5 +1581,57 @@ def decodedValue (reg : List (Str × DecK)) (rb : ReqBody) (ct : Str) (b : BodyI
     match mt.schema with
     | none => none
     | some s => match decodeBody reg ct s mt.encs b with | .val v => some (s, v) | _ => none
+
+/-- class `NoBodyEncoder` (finding F-C06-4, C13's F-C13-8 seen from the verdict): default-setting is on, a default
+fires on the decoded value, and no body encoder is registered for the request's media type (everything but the
+JSON family): `ValidateRequestBody` fails with "rewriting failed" whatever the value is -/
+def exclNoBodyEncoder (reg : List (Str × DecK)) (rb : ReqBody) (ct : Str) (b : BodyIn) (exro ds : Bool) : Bool :=
+  ds && !hasEncoder (lookup (base ct) reg) &&
+  (match decodedValue reg rb ct b with
+   | some (s, v) => firesD exro s v
+   | none => false)
+
+/-- the request-side reading decides the verdict of this case also under default-setting -/
+def caseNeutral (reg : List (Str × DecK)) (rb : ReqBody) (ct : Str) (b : BodyIn) (exro ds : Bool) : Bool :=
+  !ds ||
+  (match decodedValue reg rb ct b with
+   | some (s, v) => defaultsNeutral exro s v
+   | none => true)
+
+/-- the selected schema has no composition keyword (or validation does not get that far) -/
+def caseCompFree (reg : List (Str × DecK)) (rb : ReqBody) (ct : Str) (b : BodyIn) : Bool :=
+  match decodedValue reg rb ct b with
+  | some (s, _) => compFree s
+  | none => true
+
+/-- **the property under default-setting, two-phase reading** (C13: "the resulting request validates"): as
+`Accept`, but with default-setting on the value that must satisfy the schema read as a request is the value the
+body encodes COMPLETED by the declared defaults. Stated for composition-free schemas (`complete` does not look at
+composition keywords). -/
+def AcceptD (reg : List (Str × DecK)) (rb : ReqBody) (ct : Str) (b : BodyIn) (exro ds : Bool) : Prop :=
+  (b.text = [] ∧ rb.required = false) ∨
+  (b.text ≠ [] ∧ (rb.content = [] ∨
+    ∃ mt, firstSome rb.content (candidates ct) = some mt ∧
+      (mt.schema = none ∨ ∃ s v, mt.schema = some s ∧ specDecode reg ct s mt.encs b = some v ∧
+        SatReq exro s (if ds then complete exro s v else v))))
+
+def acceptDB (reg : List (Str × DecK)) (rb : ReqBody) (ct : Str) (b : BodyIn) (exro ds : Bool) : Bool :=
+  if b.text = [] then !rb.required
+  else if rb.content = [] then true
+  else match firstSome rb.content (candidates ct) with
+    | none => false
+    | some mt =>
+      match mt.schema with
+      | none => true
+      | some s =>
+        match specDecode reg ct s mt.encs b with
+        | none => false
+        | some v => satReqB exro s (if ds then complete exro s v else v)
+
+/-- schema and decoded value are well-formed (distinct keys) -/
+def caseWF (reg : List (Str × DecK)) (rb : ReqBody) (ct : Str) (b : BodyIn) : Bool :=
+  match decodedValue reg rb ct b with
+  | some (s, v) => s.wf && v.wf
+  | none => true
 
 end KinModel.Body
